@@ -34,6 +34,7 @@ class Ctx:
         self.violations = 0
         self.known = load_known_findings()
         self.jobno = 0
+        self.kf_printed = set()
 
     @property
     def quick(self):
@@ -82,6 +83,8 @@ class Ctx:
             consts = dict(base_consts(cfg, ops or [], name))
             consts.update(g.get("consts", {}))
             body = GEN_CFG_HEAD + "INVARIANT %s\n" % g.get("emit", "EmitAll")
+            for xi in g.get("extra_inv", []) if isinstance(g.get("extra_inv"), list) else ([g["extra_inv"]] if g.get("extra_inv") else []):
+                body += "INVARIANT %s\n" % xi
             if g.get("constraint"):
                 body += "CONSTRAINT %s\n" % g["constraint"]
             gname = "G%d_%s" % (gi, g["base"])
@@ -106,6 +109,15 @@ class Ctx:
             res = tlc_validate(d, trace, invariants, skip=skip, name=trace_module, timeout=validate_timeout)
             self.cov["states"] += res["states"]
             self.cov["transitions"] += res["transitions"]
+            for (kprop, kid), whos in res.get("known", {}).items():
+                listed = [f for f in self.known if f.get("status") == "open" and f.get("id") == kid and f.get("property") == kprop]
+                if not listed:
+                    raise ToolError("specification reports finding %s/%s that known_findings.json does not list" % (kprop, kid))
+                self.cov["known_findings_hit"] += len(whos)
+                if kid not in self.kf_printed:
+                    self.kf_printed.add(kid)
+                    print("KNOWN-FINDING: property=%s %s (e.g. behaviour %s; %d matching behaviours in job %s)" % (
+                        kprop, listed[0].get("what", kid), whos[0], len(whos), name), flush=True)
             if res["ok"]:
                 break
             if res["inv"] and res["b"]:
